@@ -137,7 +137,7 @@ def rand_cuts(rng, n, k=None):
 
 
 def c01(ctx):
-    fams = ["heads1", "heads2", "chunks", "trunc", "pipeline", "proxy", "embed"] + ([] if ctx.quick else ["heads3"])
+    fams = ["heads1", "heads2", "chunks", "trunc", "pipeline", "proxy", "embed", "blank"] + ([] if ctx.quick else ["heads3"])
     run_models(ctx, [(f, {"family": f}) for f in fams])
     ctx.coverage["exhaustive"] = True
     ctx.coverage["rule"] = ("TLC: every stream of the families %s x every segmentation into reads of 1..3 "
@@ -215,7 +215,7 @@ def seg_set(rng, n, quick):
 
 
 def c06(ctx):
-    fams = ["chunks", "trunc", "pipeline", "heads1"] + ([] if ctx.quick else ["heads2", "limits", "endless"])
+    fams = ["chunks", "trunc", "pipeline", "heads1", "blank"] + ([] if ctx.quick else ["heads2", "limits", "endless"])
     # (D): every segmentation of every stream; the terminal observation is pinned to a function of
     # the stream alone by FramingExact + CompleteOkDelivered + FinDetermined.
     jobs = [(f + "_r%d" % mr, {"family": f, "maxrecv": mr}) for f in fams[:4] for mr in ((3,) if ctx.quick else (2, 5))]
